@@ -4,4 +4,5 @@ INVARIANT Safe
 INVARIANT RoundTrip
 INVARIANT VariantsAgree
 INVARIANT RolesColon
+INVARIANT MixedAgree
 CHECK_DEADLOCK FALSE
